@@ -273,7 +273,8 @@ class AnalogSimParams:
 
         self.elapsed_time = elapsed_time
         self.dt = dt
-        self.times = np.arange(0, elapsed_time + dt, dt)
+        # an integer step count: np.arange with a float stop gains a point when (elapsed_time + dt) / dt rounds up
+        self.times = dt * np.arange(round(elapsed_time / dt) + 1)
         self.sample_timesteps = sample_timesteps
         self.num_traj = num_traj
         self.max_bond_dim = max_bond_dim
